@@ -1,6 +1,6 @@
 (** * C19 — extraction of the executable model to OCaml (ExtrOcamlBasic only)
     for the volume of the correspondence check; driver: props/C19/harness/driver.ml *)
 From Coq Require Import Extraction ExtrOcamlBasic.
-From Celer Require Import C19.Json C19.OrangeCodec C19.Run.
+From Celer Require Import C19.Json C19.OrangeCodec C19.Run C19.Reader.
 Extraction Language OCaml.
-Extraction "c19model.ml" run_rt run_dec run_consts.
+Extraction "c19model.ml" run_rt run_dec run_consts run_update.
